@@ -2,6 +2,7 @@ package props
 
 import (
 	"math/big"
+	"strings"
 	"testing"
 
 	sdk "github.com/cosmos/cosmos-sdk/types"
@@ -184,9 +185,15 @@ func runC05(cs c05Case) *Outcome {
 					}
 				}
 			} else {
-				if uint64(tr.Res.GasUsed) != tx.Gas() && tr.Res.Codespace != "" {
-					// failure outside EVM execution: the consensus result may report the SDK meter; the charge is what matters
-					o.label("failed:sdk-gas-differs")
+				switch {
+				case uint64(tr.Res.GasUsed) == tx.Gas():
+					o.label("failed:gas-used-is-the-limit")
+				case tr.Res.Codespace == "sdk" && tr.Res.Code == 11 && strings.Contains(tr.Res.Log, "block gas meter"):
+					// the tx did not fit into what was left of the block: it is dropped before execution and the consensus
+					// result reports the SDK meter; the charge (checked above) is what matters
+					o.label("failed:dropped-by-block-gas-meter")
+				default:
+					o.dev("", "b%d t%d: tx failed outside EVM execution (%s/%d %s) with gas used %d, not its gas limit %d", bi, ti, tr.Res.Codespace, tr.Res.Code, truncS(tr.Res.Log, 80), tr.Res.GasUsed, tx.Gas())
 				}
 			}
 			if outcome != "success" || (tx.Type() == 2 && new(big.Int).Add(tx.GasTipCap(), br.BaseFee).Cmp(tx.GasFeeCap()) != 0) {
